@@ -196,7 +196,10 @@ def run_encode(case, variant="rel", timeout=200, env=None, keep=True, work=None,
     e.setdefault("SVTDRV_MAXIDLE_S", str(max(30, int(timeout * 0.6))))
     t0 = time.time()
     try:
-        p = subprocess.run([b["svtdrv"]] + paths, env=e, stdout=subprocess.PIPE, stderr=subprocess.PIPE,
+        cmd = [b["svtdrv"]] + paths
+        if e.get("SVTDRV_TASKSET"):
+            cmd = ["taskset", "-c", e["SVTDRV_TASKSET"]] + cmd
+        p = subprocess.run(cmd, env=e, stdout=subprocess.PIPE, stderr=subprocess.PIPE,
                            timeout=timeout)
         code, err = p.returncode, p.stderr.decode("latin1", "replace")
     except subprocess.TimeoutExpired as ex:
